@@ -2,7 +2,7 @@
    (non-vacuity), and witnesses of the open findings (refutations outside the guards).
    Everything here is closed by computation on the executable model. *)
 From Coq Require Import String Ascii List Bool Arith ZArith Permutation.
-From Shoot Require Import Base.Str Model.Transfer Model.Directive Model.Rest Model.RestSpec Proofs.RestBase Proofs.RestProofs.
+From Shoot Require Import Base.Str Model.Transfer Model.Directive Model.Rest Model.RestSpec Model.RestStd Proofs.RestBase Proofs.RestProofs.
 Import ListNotations.
 Local Open Scope string_scope.
 Local Open Scope list_scope.
@@ -48,16 +48,16 @@ Definition m_get : method_decl :=
 Definition s_get : mspec :=
   {| s_verb := "GET"; s_toks := [PLit "/users/"; PHole "id"]; s_alias := [("userID", "id")];
      s_params := [("ctx", KCtx); ("userID", KScalar false)] |}.
-Definition a_get : list (string * aval) := [("ctx", ACtx (Some (7, false))); ("userID", AScalar (SStr "a b/c?d"))].
+Definition a_get : list (string * aval) := [("ctx", ACtx (Some (7, false))); ("userID", AScalar (SStr "a b?c#d"))].
 
 Lemma ex_get_linked : linked E0 m_get s_get.
-Proof. eexists. conjs; [reflexivity | vmc | vmc | vmc]. Qed.
+Proof. split; [vmc|]. eexists. conjs; [reflexivity | vmc | vmc | vmc]. Qed.
 Lemma ex_get_guards : wf_mspec s_get = true /\ args_in_guard fmt_demo s_get a_get = true.
 Proof. conjs; vmc. Qed.
 Lemma ex_get_request :
   exists d, cook_method ido E0 m_get = COk d /\
   exec fmt_demo join_demo json_demo noq idd (default_headers "GET") d "http://h/api" a_get
-  = OSent {| rq_verb := "GET"; rq_path := "/users/a b/c?d"; rq_url := "http://h/api|/users/a b/c?d"; rq_query := None;
+  = OSent {| rq_verb := "GET"; rq_path := "/users/a b?c#d"; rq_url := "http://h/api|/users/a b?c#d"; rq_query := None;
              rq_headers := [("Accept", "application/json")]; rq_body := None; rq_ctx := Some (7, false) |}.
 Proof. exists (get_ok (cook_method ido E0 m_get)). conjs; vmc. Qed.
 
@@ -89,7 +89,7 @@ Definition I_query : iface :=
   [IEmbed (Some (doc_lines ["shoot: headers={X-Api:k1},{Accept:text/plain}"])); IMethod m_get; IMethod m_query].
 
 Lemma ex_query_linked : linked E0 m_query s_query.
-Proof. eexists. conjs; [reflexivity | vmc | vmc | vmc]. Qed.
+Proof. split; [vmc|]. eexists. conjs; [reflexivity | vmc | vmc | vmc]. Qed.
 Lemma ex_query_guards : wf_mspec s_query = true /\ args_in_guard fmt_demo s_query a_query = true.
 Proof. conjs; vmc. Qed.
 Lemma ex_query_request :
@@ -112,7 +112,7 @@ Definition s_put : mspec :=
 Definition a_put : list (string * aval) :=
   [("id", AScalar (SInt 5)); ("user", AStruct false (Some [("ID", FPlain (SStr "u1")); ("Name", FPlain (SStr "n"))]))].
 Lemma ex_put_linked : linked E0 m_put s_put.
-Proof. eexists. conjs; [reflexivity | vmc | vmc | vmc]. Qed.
+Proof. split; [vmc|]. eexists. conjs; [reflexivity | vmc | vmc | vmc]. Qed.
 Lemma ex_put_guards : wf_mspec s_put = true /\ args_in_guard fmt_demo s_put a_put = true.
 Proof. conjs; vmc. Qed.
 Lemma ex_put_request :
@@ -191,3 +191,42 @@ Proof. vmc. Qed.
 Lemma header_value_kept :
   parse_headers (doc_lines ["shoot: headers={Accept:*/*},{X-Sig: (a)}"]) = [("Accept", "*/*"); ("X-Sig", "(a)")].
 Proof. vmc. Qed.
+
+(* repaired in the review round: an unnamed or blank parameter, a pointer path parameter are refused; a
+   qualified named scalar (time.Duration) of a GET method is a query parameter like any scalar *)
+Definition m_unnamed : method_decl :=
+  {| md_name := "U"; md_doc := Some (doc_lines ["shoot: Get(""/b"")"]);
+     md_params := [{| pd_names := []; pd_type := TSel "context" "Context" |}; {| pd_names := []; pd_type := TIdent "int" |}] |}.
+Lemma unnamed_param_refused : cook_method ido E0 m_unnamed = CFatal "parameters must be named".
+Proof. vmc. Qed.
+Definition m_ptrpath : method_decl :=
+  {| md_name := "P"; md_doc := Some (doc_lines ["shoot: Get(""/p/{id}"")"]);
+     md_params := [ctxp; {| pd_names := ["id"]; pd_type := TStar (TIdent "string") |}] |}.
+Lemma ptr_path_param_refused : cook_method ido E0 m_ptrpath = CFatal "a path parameter must not be a pointer".
+Proof. vmc. Qed.
+Definition E_time : env :=
+  {| e_pkg_types := []; e_sel := [(("context", "Context"), SelCtx); (("time", "Duration"), SelBasic)]; e_structs := [] |}.
+Definition m_dur : method_decl :=
+  {| md_name := "D"; md_doc := Some (doc_lines ["shoot: Get(""/a"")"]);
+     md_params := [ctxp; {| pd_names := ["d"]; pd_type := TSel "time" "Duration" |}; {| pd_names := ["n"]; pd_type := TIdent "int" |}] |}.
+Definition s_dur : mspec :=
+  {| s_verb := "GET"; s_toks := [PLit "/a"]; s_alias := [];
+     s_params := [("ctx", KCtx); ("d", KScalar false); ("n", KScalar false)] |}.
+Lemma ex_dur_linked : linked E_time m_dur s_dur /\ wf_mspec s_dur = true.
+Proof. split; [split; [vmc|]; eexists; conjs; [reflexivity | vmc | vmc | vmc] | vmc]. Qed.
+
+(* K_rest_path_percent (open, the missing url.PathEscape): with the reference instance of url.JoinPath the
+   argument ".." of GetUser makes the request go to the base path, not to <base>/users/.. *)
+Definition a_get_dots : list (string * aval) := [("ctx", ACtx (Some (7, false))); ("userID", AScalar (SStr ".."))].
+Lemma refuted_path_unescaped :
+  linked E0 m_get s_get /\ wf_mspec s_get = true /\ args_typed s_get a_get_dots = true /\
+  exists d r, cook_method ido E0 m_get = COk d /\
+    exec fmt_demo (fun b p => Some (join_decoded b p)) json_demo noq idd (default_headers "GET") d "/api" a_get_dots = OSent r /\
+    rq_path r = "/users/.." /\ rq_url r = "/api" /\ join_plain "/api" (rq_path r) = "/api/users/..".
+Proof.
+  split; [exact ex_get_linked|]. split; [vmc|]. split; [vmc|].
+  exists (get_ok (cook_method ido E0 m_get)).
+  exists {| rq_verb := "GET"; rq_path := "/users/.."; rq_url := "/api"; rq_query := None;
+            rq_headers := [("Accept", "application/json")]; rq_body := None; rq_ctx := Some (7, false) |}.
+  conjs; vmc.
+Qed.
